@@ -153,6 +153,14 @@ func (st *State) havocLog() {
 	st.assume(fmt.Sprintf("(forall ((k!p Int)) (! (=> (and (<= 0 k!p) (< k!p %s)) (= (select %s k!p) (select %s k!p))) :pattern ((select %s k!p))))", oldLen, st.evlog, oldLog, st.evlog))
 }
 
+// havocLogOpaque: unknown code (function values, callees outside the loaded packages) appends only opaque events:
+// it is assumed not to communicate on the channels, tracers, locks and wait groups of the activation under analysis.
+func (st *State) havocLogOpaque() {
+	oldLen := st.evlen
+	st.havocLog()
+	st.assume(fmt.Sprintf("(forall ((k!p Int)) (! (=> (and (<= %s k!p) (< k!p %s)) (>= (ev_kind (select %s k!p)) %d)) :pattern ((select %s k!p))))", oldLen, st.evlen, st.evlog, evKinds["Call"], st.evlog))
+}
+
 func (st *State) havocAlloc() {
 	old := st.alloc
 	st.alloc = st.c.freshConst("alloc", "Int")
